@@ -447,12 +447,15 @@ func C19(c *core.Ctx) {
 		c15seq = 0
 		sc := &c15schema{types: map[string]c15type{}, lists: map[string]bool{}, mod: map[string]string{}}
 		sc.kids = c15genKids(r, sc, ts, 0, 2+r.Intn(4), "m")
+		if si == 0 {
+			sc.kids = c15allTypesKids(sc, ts)
+		}
 		m, y, err := c15module(sc, ts)
 		if err != nil {
 			c.Violation(core.Replay{Kind: "harness", Summary: "C19 module does not load: " + err.Error(), Input: y, NoInputFound: true})
 			return
 		}
-		for di := 0; di < c.N(5, 15); di++ {
+		for di := 0; di < c.N(5, 15)+map[bool]int{true: 25}[si == 0]; di++ {
 			tree := c15data(r, sc, sc.kids, 45+r.Intn(50))
 			c04canonBody(m, sc, sc.kids, tree, nil)
 			want := gen.Canon(sc.kids, tree, false)
